@@ -74,6 +74,8 @@ pub struct Mark {
     pub announced: Option<usize>,
     /// a retry of a failed finalize
     pub is_retry: bool,
+    /// device content (shp, shx) right after a finalize call returned
+    pub snap: Option<(Vec<u8>, Vec<u8>)>,
 }
 
 pub struct WRun {
@@ -178,9 +180,14 @@ pub fn run_writer(world: &WorldRef, prog: &WProg) -> WRun {
             offered_shp: offered() - off0,
             announced,
             is_retry: false,
+            snap: None,
         });
         if let (WCall::W(i), true) = (call, ok) {
             run.written.push(*i);
+        }
+        if matches!(call, WCall::Fin | WCall::FinRetry) {
+            let w = world.borrow();
+            run.marks.last_mut().unwrap().snap = Some((w.data(SHP).to_vec(), w.data(SHX).to_vec()));
         }
         if let (WCall::FinRetry, false, false) = (call, ok, panicked) {
             let first = evs(world);
@@ -196,7 +203,10 @@ pub fn run_writer(world: &WorldRef, prog: &WProg) -> WRun {
                 offered_shp: offered() - off0,
                 announced: None,
                 is_retry: true,
+                snap: None,
             });
+            let w = world.borrow();
+            run.marks.last_mut().unwrap().snap = Some((w.data(SHP).to_vec(), w.data(SHX).to_vec()));
         }
         if panicked {
             poisoned = true;
@@ -220,7 +230,10 @@ pub fn run_writer(world: &WorldRef, prog: &WProg) -> WRun {
                     offered_shp: 0,
                     announced: None,
                     is_retry: false,
+                    snap: None,
                 });
+                let w = world.borrow();
+                run.marks.last_mut().unwrap().snap = Some((w.data(SHP).to_vec(), w.data(SHX).to_vec()));
             }
             Ending::WriteShapes(list) => {
                 let first = evs(world);
@@ -246,6 +259,7 @@ pub fn run_writer(world: &WorldRef, prog: &WProg) -> WRun {
                     offered_shp: 0,
                     announced: None,
                     is_retry: false,
+                    snap: None,
                 });
                 return run;
             }
@@ -265,6 +279,7 @@ pub fn run_writer(world: &WorldRef, prog: &WProg) -> WRun {
         offered_shp: 0,
         announced: None,
         is_retry: false,
+        snap: None,
     });
     run
 }
